@@ -88,12 +88,12 @@ def parse(expr: str):
             if priority < 0:
                 raise MathExpressionException('Unmatched ")"', scanner)
 
-            if expected & ParserState.NullaryCall:
-                tokens.append(nullary)
-            elif (expected & ParserState.RParen) == 0:
+            if (expected & ParserState.RParen) == 0:
+                # Also covers empty parentheses: there are no function calls
+                # in math expressions, so `()` has no value
                 raise MathExpressionException('Unexpected ")"', scanner)
 
-            expected = ParserState.Operator | ParserState.RParen | ParserState.LParen
+            expected = ParserState.Operator | ParserState.RParen
         else:
             raise MathExpressionException('Unknown character', scanner)
 
